@@ -922,6 +922,16 @@ def equivalence_pairs(tier, sd):
     return pairs
 
 
+def replay_equiv(p):
+    """re-run one documented-equivalence pair of a C24 replay file against the real constructors -> True iff it still fails"""
+    r = _pair_eval((p.get("key", "pair"), p["left"], p["right"]))
+    a, b = r["a"], r["b"]
+    print("left:", {k: (v if k != "keys" else len(v)) for k, v in a.items()}, "\nright:", {k: (v if k != "keys" else len(v)) for k, v in b.items()})
+    if "rejected" in a or "rejected" in b:
+        return ("rejected" in a) != ("rejected" in b)
+    return not (a["T"] == b["T"] and a["keys"] == b["keys"] and bool(a["errors"]) == bool(b["errors"]))
+
+
 def c24(tier):
     ck = Check("C24", tier, "exploration",
                "Relational contracts between the block constructors (no oracle): for each pair of constructions the documentation equates — "
@@ -1038,7 +1048,14 @@ def weighted_designs(tier, sd):
            DS.D("w-uncrossed-transition-ref", [DS.fac("c", DS.A2), d2w, DS.transition_rep("t", "d", ["x", "y"])], DS.cross(["c", "d", "t"], ["c"], [["MinimumTrials", 3]])),
            DS.D("w-uncrossed-constraint-other", [DS.fac("c", DS.A2), d2w], DS.cross(["c", "d"], ["c"], [["AtMostKInARow", 1, "c", "r"], ["MinimumTrials", 4]])),
            DS.D("w-multi-partly-crossed", [c2w, DS.fac("f", ["p", "q", "s"])], DS.multi(["c", "f"], [["c"], ["f"]], mode="weight")),
-           DS.D("w-repeat", [c2w], DS.repeat(DS.cross(["c"], ["c"]), [["MinimumTrials", 6]]))]
+           DS.D("w-repeat", [c2w], DS.repeat(DS.cross(["c"], ["c"]), [["MinimumTrials", 6]])),
+           # the weighted factor is outside the crossing and its copies feed a CROSSED derived factor
+           DS.D("w-uncrossed-feeds-crossed-derived", [c2w, DS.fac("w", DS.A2), DS.within_eq("k", "c", "w", DS.A2, DS.A2)], DS.cross(["c", "w", "k"], ["k"])),
+           DS.D("w-uncrossed-feeds-crossed-derived-2", [c2w, DS.fac("w", DS.A2), DS.within_eq("k", "c", "w", DS.A2, DS.A2)], DS.cross(["c", "w", "k"], ["w", "k"])),
+           DS.D("w-uncrossed-3-feeds-crossed-derived", [DS.fac("c", [["r", 3], ["g", 1]]), DS.fac("w", DS.A2), DS.within_eq("k", "c", "w", DS.A2, DS.A2)], DS.cross(["c", "w", "k"], ["k"])),
+           # weighted factors inside combinators
+           DS.D("w-nest-inner-uncrossed", [DS.fac("c", DS.A2), DS.fac("g", ["u", "v"]), d2w], DS.nest(DS.cross(["c"], ["c"]), DS.cross(["g", "d"], ["g"]))),
+           DS.D("w-merge-uncrossed", [DS.fac("c", DS.A2), DS.fac("g", ["u", "v"]), d2w], DS.merge([DS.cross(["g"], ["g"]), DS.cross(["c", "d"], ["c"])]))]
     for d in DS.random_designs(sd, 60 if tier == "quick" else 600):
         if any(w > 1 for F in d["factors"] if not model.is_derived(F) for _, w in F["levels"]):
             # constraints that name a weighted level cannot be expressed on separately named copies
